@@ -4,7 +4,7 @@ PROP = dict(
     level="model_checking",
     technique="TLA+ spec Identity.tla (B3 function vector: TraceID/IsRoot as functions of the typed fields, the configured TraceIdFieldNames/ParentIdFieldNames lists, "
               "the payload layout and the ingestion path) model-checked by TLC; every enumerated input is built through the real constructors "
-              "(NewPayload+ExtractMetadata, Payload.UnmarshalJSON, CoreFieldsUnmarshaler.UnmarshalMsgpFirstEvent on msgpack and on JSON->msgpack, Payload.UnmarshalMsg) "
+              "(quick: NewPayload+ExtractMetadata and CoreFieldsUnmarshaler.UnmarshalMsgpFirstEvent on msgpack; thorough adds Payload.UnmarshalJSON, JSON->msgpack via AppendJSONValue, Payload.UnmarshalMsg) "
               "and Payload.MetaTraceID / MetaRefineryRoot.Value compared with the model",
     design_ref="DESIGN.md §5 C21, §7 C21",
     level_text="TLC enumerates every typing (absent, non-empty string, empty string, number) of two trace-ID fields, two parent-ID fields and meta.trace_id, meta.signal_type in "
@@ -14,7 +14,7 @@ PROP = dict(
                "root exactly when in a trace, no configured parent field holds a non-empty string and the signal type is not log; the answer is the same for every layout. "
                "Each input is then constructed on the real code and the trace ID and root flag handed to the collector must be the model's; map-based paths are repeated 48 times on fresh maps "
                "and every answer seen must be the model's (Go map order).",
-    level_note="Values are one fixed string per field, one number (7) as the non-string; bin-typed and nested values are not enumerated. Layouts: 6 (quick) / 12 (thorough) of the 720 permutations, "
+    level_note="Quick enumerates parent typings {absent, string} and signal types {absent, log, trace}; thorough adds the empty-string parent and empty/number signal types (number-typed parents only in the model-only run). Values are one fixed string per field, one number (7) as the non-string; bin-typed and nested values are not enumerated. Layouts: 6 of the 720 permutations, "
                "chosen so that every relative order of the three ID-deciding fields occurs with the remaining fields around them. Root status of an event without a trace ID is not compared "
                "(it is never handed to the collector). meta.refinery.root supplied by the client is outside the enumeration. "
                "Known deviations of the unchanged tree (payload/map order decides between several trace-ID fields; an empty-string meta.trace_id erases an ID found earlier) are modelled "
@@ -23,6 +23,8 @@ PROP = dict(
     stages=[
         dict(kind="walk", name="Identity", module="Identity", pkg="types", test="TestVerifC21Identity", harness=["types/c21_identity_test.go"],
              cfg={"quick": "MC_Identity.cfg", "thorough": "MC_Identity_big.cfg"}, budget={"quick": 40, "thorough": 300}, maxwalk=4),
+        dict(kind="walk", name="IdentityAlt", module="Identity", pkg="types", test="TestVerifC21Identity", harness=["types/c21_identity_test.go"],
+             cfg={"quick": "MC_Identity_alt.cfg", "thorough": "MC_Identity_alt.cfg"}, budget={"quick": 40, "thorough": 120}, maxwalk=4, tiers=("thorough",)),
         dict(kind="tlc", name="IdentityIdeal", module="Identity", cfg={"quick": None, "thorough": "MC_Identity_ideal.cfg"}, workers=8),
     ],
 )
